@@ -20,6 +20,19 @@ pub enum Item {
     Dir(Dir),
 }
 
+fn ws_class(s: &str) -> &'static str {
+    let w: String = s.chars().take_while(|c| is_blank(*c)).collect();
+    if w.is_empty() {
+        "none"
+    } else if w.chars().all(|c| c == ' ') {
+        "spaces"
+    } else if w.chars().all(|c| c == '\t') {
+        "tabs"
+    } else {
+        "mixed"
+    }
+}
+
 fn is_blank(c: char) -> bool {
     c == ' ' || c == '\t'
 }
@@ -324,29 +337,35 @@ impl<'a> Eval<'a> {
         let mut tags = TagStore::default();
         let n = items.len();
         let mut last_dir_output: Option<String> = None;
+        let mut last_was_dir = false;
         for (idx, it) in items.iter().enumerate() {
             match it {
                 Item::Text(l) => {
+                    self.cover.insert(format!("text-after|owed={owed}|prev_dir={}", last_was_dir));
+                    last_was_dir = false;
                     if owed {
                         out.push_str(le);
                     }
                     out.push_str(&tags.inject(l, le));
                     owed = true;
                     last_dir_output = None;
-                    self.cover.insert(format!("text|owed|tags={}", tags.stored.len()));
+                    self.cover.insert(format!("text|owed={}|tags={}|listening={}|le={}|ws={}", idx > 0, tags.stored.len().min(2), tags.listening.is_some(), le.len(), ws_class(l)));
                 }
                 Item::Dir(d) => {
                     let o = self.result(d, &dir, src, le, &mut tags)?;
                     let Some(o) = o else {
-                        self.cover.insert(format!("dir:{}|none|multi={}", d.name, d.args.len() > 1));
+                        self.cover.insert(format!("dir:{}|none|multi={}|listening={}|eof={}", d.name, d.args.len() > 1, tags.listening.is_some(), idx + 1 == n));
+                        last_was_dir = true;
                         continue;
                     };
                     if tags.listening.is_some() {
-                        let n = tags.listening.take().unwrap();
-                        tags.stored.push((n, o));
-                        self.cover.insert(format!("dir:{}|stored", d.name));
+                        let name = tags.listening.take().unwrap();
+                        self.cover.insert(format!("dir:{}|stored|out:{}|multi={}|eof={}", d.name, if o.is_empty() { "empty" } else if o.ends_with('\n') { "nl" } else { "nonl" }, d.args.len() > 1, idx + 1 == n));
+                        tags.stored.push((name, o));
+                        last_was_dir = true;
                         continue;
                     }
+                    let owed_before = owed;
                     if owed {
                         out.push_str(le);
                     }
@@ -360,13 +379,17 @@ impl<'a> Eval<'a> {
                         last_dir_output = Some(f.clone());
                     }
                     self.cover.insert(format!(
-                        "dir:{}|out:{}|eof={}|ws={}|multi={}",
+                        "dir:{}|out:{}|eof={}|ws={}|multi={}|owed_before={}|le={}|pre={}",
                         d.name,
-                        if o.is_empty() { "empty" } else if o.ends_with('\n') { "nl" } else { "nonl" },
+                        if o.is_empty() { "empty" } else if o.ends_with('\n') { "nl" } else if o.contains('\n') { "multi-nonl" } else { "nonl" },
                         owed,
-                        !d.ws.is_empty(),
-                        d.args.len() > 1
+                        ws_class(&d.ws),
+                        d.args.len() > 1,
+                        owed_before,
+                        le.len(),
+                        if d.pre.is_ascii() { "ascii" } else { "nonascii" }
                     ));
+                    last_was_dir = true;
                 }
             }
         }
